@@ -7,13 +7,23 @@
 (* variable names (document validation is meant to reject those; outside C09).           *)
 (* Variable names depend on position and on the template's rank in the family, so the    *)
 (* same name occurs at different depths and different names at the same depth.           *)
+(*                                                                                       *)
+(* A second, small family universe ("mixed") has templates whose variables sit inside a  *)
+(* segment next to literal text -- /v{n}, /files/report.{ext}, /{p}-{q} -- together with *)
+(* the literal and plain-variable templates that compete with them (/v1, /{x},           *)
+(* /files/report.pdf, /files/{x}, /a-b, ...).                                            *)
 EXTENDS Router, TLC
 
 Alpha == {"a", "b", "V"}
 ShapesUpTo(n) == UNION {[1..k -> Alpha] : k \in 1..n}
-Code(c) == CASE c = "a" -> 1 [] c = "b" -> 2 [] c = "V" -> 3
-ShapeRank(sh) == Len(sh) * 100 + Code(sh[1]) * 16
-                 + (IF Len(sh) > 1 THEN Code(sh[2]) * 4 ELSE 0) + (IF Len(sh) > 2 THEN Code(sh[3]) ELSE 0)
+(* segment symbols of the mixed universe: "vN" = v{n}, "rE" = report.{ext}, "PQ" = {p}-{q}, *)
+(* "rp" = report.pdf; every other symbol is the literal it spells                        *)
+MixedShapes == {<<"vN">>, <<"v1">>, <<"V">>, <<"files", "rE">>, <<"files", "rp">>, <<"files", "V">>,
+                <<"PQ">>, <<"a-b">>, <<"vN", "a">>, <<"v1", "V">>, <<"a", "vN">>}
+Code(c) == CASE c = "a" -> 1 [] c = "b" -> 2 [] c = "V" -> 3 [] c = "v1" -> 4 [] c = "vN" -> 5 [] c = "files" -> 6
+             [] c = "rp" -> 7 [] c = "rE" -> 8 [] c = "a-b" -> 9 [] c = "PQ" -> 10
+ShapeRank(sh) == Len(sh) * 10000 + Code(sh[1]) * 256
+                 + (IF Len(sh) > 1 THEN Code(sh[2]) * 16 ELSE 0) + (IF Len(sh) > 2 THEN Code(sh[3]) ELSE 0)
 
 VarNames == <<"x", "y", "z">>
 VarName(p, k) == VarNames[((p + k - 2) % 3) + 1]
@@ -21,8 +31,16 @@ VarName(p, k) == VarNames[((p + k - 2) % 3) + 1]
 MethSets == [G |-> <<"GET">>, P |-> <<"POST">>, GP |-> <<"GET", "POST">>]
 MethKeys == {"G", "P", "GP"}
 
+Seg(sym, p, k) ==
+   CASE sym = "V" -> [v |-> VarName(p, k)]
+     [] sym = "vN" -> [mx |-> <<[l |-> "v"], [v |-> VarName(p, k)]>>]
+     [] sym = "rE" -> [mx |-> <<[l |-> "report."], [v |-> VarName(p, k)]>>]
+     [] sym = "PQ" -> [mx |-> <<[v |-> "p"], [l |-> "-"], [v |-> "q"]>>]
+     [] sym = "rp" -> [l |-> "report.pdf"]
+     [] OTHER -> [l |-> sym]
+
 Templ(sh, k, mk) ==
-   [segs |-> [p \in 1..Len(sh) |-> IF sh[p] = "V" THEN [v |-> VarName(p, k)] ELSE [l |-> sh[p]]],
+   [segs |-> [p \in 1..Len(sh) |-> Seg(sh[p], p, k)],
     ops |-> [j \in 1..Len(MethSets[mk]) |-> [m |-> MethSets[mk][j], id |-> "t" \o ToString(k) \o MethSets[mk][j]]]]
 
 (* tm: function from shapes to method-set keys *)
@@ -66,10 +84,24 @@ Doc(tm, sk) ==
 (* requests *)
 Vals == {"a", "b", "v"}
 
-VarPos(t) == {i \in 1..Len(t.segs) : IsVar(t.segs[i])}
-Fill(t, bnd) == [i \in 1..Len(t.segs) |-> IF IsVar(t.segs[i]) THEN bnd[i] ELSE t.segs[i].l]
-Fills(t) == {Fill(t, bnd) : bnd \in [VarPos(t) -> Vals]}
-BaseFill(t) == Fill(t, [i \in VarPos(t) |-> "v"])
+(* the texts a segment is filled to: a plain variable takes the values a, b, v -- and, in *)
+(* a document of the mixed universe, the texts of the competing literals instead of b;   *)
+(* a mixed segment takes its literal text around values chosen to collide with siblings  *)
+SegFills(seg, mixed) ==
+   IF IsLit(seg) THEN {seg.l}
+   ELSE IF IsVar(seg) THEN (IF mixed THEN {"a", "v", "v1", "a-b", "report.pdf"} ELSE Vals)
+   ELSE IF seg.mx[1] = [l |-> "v"] THEN {"v1", "v2", "vv"}
+   ELSE IF seg.mx[1] = [l |-> "report."] THEN {"report.pdf", "report.txt"}
+   ELSE {"a-b", "a-b-v", "v1-b"}
+SegBase(seg) ==
+   IF IsLit(seg) THEN seg.l
+   ELSE IF IsVar(seg) THEN "v"
+   ELSE IF seg.mx[1] = [l |-> "v"] THEN "v2"
+   ELSE IF seg.mx[1] = [l |-> "report."] THEN "report.txt"
+   ELSE "a-b"
+Fills(t, mixed) == {f \in [1..Len(t.segs) -> UNION {SegFills(t.segs[i], mixed) : i \in 1..Len(t.segs)}] :
+                      \A i \in 1..Len(t.segs) : f[i] \in SegFills(t.segs[i], mixed)}
+BaseFill(t) == [i \in 1..Len(t.segs) |-> SegBase(t.segs[i])]
 
 (* near misses of a path: one segment more / less, trailing slash, an empty segment,     *)
 (* a segment that has a literal as a proper prefix                                       *)
@@ -77,9 +109,14 @@ Near(p) == {p \o <<"v">>, p \o <<"">>, p \o <<"", "">>}
            \cup (IF Len(p) > 1 THEN {SubSeq(p, 1, Len(p) - 1)} ELSE {})
            \cup {[p EXCEPT ![i] = ""] : i \in 1..Len(p)}
            \cup {[p EXCEPT ![i] = "ab"] : i \in 1..Len(p)}
+(* ... and, around mixed segments: the literal text alone (empty value), a value missing *)
+(* on either side of the separator, the text without its last character                  *)
+NearMixed(p) == {[p EXCEPT ![i] = x] : i \in 1..Len(p), x \in {"v", "report.", "report", "a-", "-b"}}
 
-ResPaths(doc) == LET T == {doc.templates[k] : k \in 1..Len(doc.templates)} IN
-                 UNION {Fills(t) : t \in T} \cup UNION {Near(BaseFill(t)) : t \in T}
+ResPaths(doc) == LET T == {doc.templates[k] : k \in 1..Len(doc.templates)}
+                     mixed == HasMixed(doc)
+                 IN UNION {Fills(t, mixed) : t \in T} \cup UNION {Near(BaseFill(t)) : t \in T}
+                    \cup (IF mixed THEN UNION {NearMixed(BaseFill(t)) : t \in T} ELSE {})
 
 (* the canonical URL of a path under a server: variables take their defaults *)
 Dflt(part) == IF IsVar(part) THEN part.d ELSE part.l
